@@ -24,5 +24,35 @@ func init() {
 			},
 			Extra: c11Facts,
 		},
+		{
+			// C11, the error side: how the description / state of an error answer come about before they are put on the wire
+			Out:     "AuthError.lean",
+			NS:      "GenErr",
+			Imports: []string{"OidcModel.Model.AuthError", "OidcModel.Generated.AuthResponse"},
+			Opens:   []string{"Go", "AR.Err"},
+			Funcs: []FuncSpec{
+				{File: "pkg/oidc/error.go", Name: "Error.WithDescription", Lean: "WithDescription",
+					Params: []string{"(e : AR.OidcError)", "(desc : AR.Bytes)", "(args : List AR.FmtArg := [])"}, Ret: RetVal, RetType: "AR.OidcError", PlainUpdate: true,
+					Rename: map[string]string{"fmt.Sprintf()": "AR.Sprintf"}},
+				{File: "pkg/oidc/error.go", Name: "DefaultToServerError", Lean: "DefaultToServerError",
+					Params: []string{"(err : AR.GoErr)", "(description : AR.Bytes)"}, Ret: RetVal, RetType: "AR.OidcError", PlainUpdate: true, ErrStruct: true, ErrorsAsBind: true,
+					ZeroOf: map[string]string{"*Error": "(default : AR.OidcError)"},
+					Rename: map[string]string{"new(Error)": "(default : AR.OidcError)", "errors.As()": "AR.errorsAs", "ServerError": "AR.ServerError",
+						"ErrServerError()": "AR.ErrServerError", ".WithDescription()": "WithDescription now", ".WithParent()": "AR.OidcError.WithParent"}},
+				{File: "pkg/op/error.go", Name: "AuthRequestError", Lean: "AuthRequestError",
+					Params: []string{"(urlParse : AR.Bytes → Go.R AR.URL)", "(authReq : AR.ErrReq)", "(err : AR.GoErr)", "(authorizer : AR.ErrAuthorizer)"}, Ret: RetWrites,
+					Rename: c11ErrRename},
+				{File: "pkg/op/error.go", Name: "TryErrorRedirect", Lean: "TryErrorRedirect",
+					Params: []string{"(urlParse : AR.Bytes → Go.R AR.URL)", "(authReq : AR.ErrReq)", "(parent : AR.GoErr)", "(encoder : Unit)", "(logger : Unit)"}, Ret: RetValErr, RetType: "AR.Redirect",
+					Rename: c11ErrRename},
+			},
+		},
 	}...)
+}
+
+var c11ErrRename = map[string]string{
+	"http.StatusBadRequest": "(400 : Int)", "http.StatusFound": "(302 : Int)",
+	"http.Error()": "AR.httpError", "http.Redirect()": "AR.httpRedirect",
+	"err.Error()": "(AR.errText err)", "parent.Error()": "(AR.errText parent)",
+	"AuthResponseURL()": "GenWire.AuthResponseURL now urlParse", "AsStatusError()": "AR.AsStatusError", "NewRedirect()": "AR.NewRedirect",
 }
